@@ -27,6 +27,21 @@ enum Item {
     /// `ext`: declared `extern` (C calling convention; still private to its module unless `pub`)
     Func { body: String, ext: bool },
     Main { body: String },
+    // ---- kinds added by the dimension audit (Program::extend_kinds) ----
+    /// function head without a body, never called: `fn h<a>(..) -> i32;` or `extern fn h<a>(buf: []u8, n: usize) -> i32;`
+    Head { text: String },
+    /// opaque structure `struct S<a>;` (only ever used behind pointers)
+    Opaque,
+    /// `word128 W<a> { w: W<inner>, x: i32, y: i32 }` -- a word that contains a word
+    WordIn { inner: usize },
+    /// constant of structure / word type: `const C<a>: S<of> = S<of> { .. };` (text = the literal)
+    SConst { of: usize, word: bool, text: String },
+    /// `const C<a>: [2][C<len_const>]i32 = [[..], [..]];`
+    Arr2 { len_const: usize, rows: Vec<Vec<i64>> },
+    /// array constant whose TYPE mentions a constant and whose VALUE mentions others: `[C<len>]i32 = [C<i> + 1, ..]`
+    ArrExpr { len_const: usize, texts: Vec<String> },
+    /// function that takes structures / words / views across declaration (and module) borders
+    FuncSig { params: String, body: String, ret: String },
 }
 
 #[derive(Clone, Debug)]
@@ -36,6 +51,8 @@ enum VMember {
     ArrNamed(usize, usize), // constant, its value
     Word(usize),
     Nested(usize),
+    /// `[2]S<t>`: an array of structures as a member
+    NestedArr(usize),
 }
 
 pub struct Program {
@@ -67,6 +84,7 @@ impl Program {
                 }
                 VMember::Word(w) => format!("W{w} {{ x: {a}, y: {b} }}"),
                 VMember::Nested(t) => self.value_literal(*t, rng, a, b),
+                VMember::NestedArr(t) => format!("[{}, {}]", self.value_literal(*t, rng, a, b), self.value_literal(*t, rng, b, a)),
             };
             out.push_str(&format!("{name}: {e}"));
         }
@@ -83,7 +101,108 @@ impl Program {
             VMember::ArrLit(n) | VMember::ArrNamed(_, n) => format!("{v}.{name}[{}]", rng.below(*n)),
             VMember::Word(_) => format!("{v}.{name}.{}", if rng.chance(50) { "x" } else { "y" }),
             VMember::Nested(t) => self.value_read(*t, &format!("{v}.{name}"), rng),
+            VMember::NestedArr(t) => self.value_read(*t, &format!("{v}.{name}[{}]", rng.below(2)), rng),
         }
+    }
+
+    /// Dimension audit: every fourth program (indices 1 and 6 mod 8: one with shared names, one without) additionally holds EVERY kind of declaration -- a chain of five constants
+    /// and of five nested structures (dependency chains longer than the exhaustive bound), a diamond of structures, an
+    /// array of structures as a member, a word that contains a word, constants of structure / word / nested-array type,
+    /// an array constant whose type AND value mention other constants, an opaque structure behind pointers, function
+    /// heads (plain and extern) that are never called, functions that take structures, words, pointers and views.
+    /// Drawn from a generator of its own, so that the draws of the original program are not shifted.
+    fn extend_kinds(&mut self, seed: u64, index: usize) {
+        if index % 8 != 1 && index % 8 != 6 {
+            return;
+        }
+        let mut rng = Rng::new(seed, 0xC11C_A000 + index as u64);
+        // chain of constants C -> C -> C -> C -> C (values 1..5, usable as lengths)
+        let mut prev = 0;
+        for i in 1..=5usize {
+            let text = if prev == 0 { "1".to_string() } else if i % 2 == 0 { format!("C{prev} + 1") } else { format!("1 + C{prev}") };
+            self.items.push(Item::Pure { value: i, text });
+            prev = self.items.len();
+        }
+        let chain_end = prev;
+        // chain of nested structures, five deep; the innermost has an array whose length ends the constant chain
+        let mut inner = 0;
+        for i in 0..5 {
+            let mut members = vec![("a".to_string(), VMember::Int)];
+            if inner == 0 {
+                members.push(("b".to_string(), VMember::ArrNamed(chain_end, 5)));
+            } else if i == 2 {
+                members.push(("v".to_string(), VMember::NestedArr(inner)));
+            } else {
+                members.push(("v".to_string(), VMember::Nested(inner)));
+            }
+            self.items.push(Item::Value { members });
+            inner = self.items.len();
+        }
+        let deep = inner;
+        // diamond D4 -> {D2, D3} -> D1
+        self.items.push(Item::Value { members: vec![("a".to_string(), VMember::Int)] });
+        let d1 = self.items.len();
+        self.items.push(Item::Value { members: vec![("a".to_string(), VMember::Int), ("v".to_string(), VMember::Nested(d1))] });
+        let d2 = self.items.len();
+        self.items.push(Item::Value { members: vec![("v".to_string(), VMember::Nested(d1)), ("a".to_string(), VMember::Int)] });
+        let d3 = self.items.len();
+        self.items.push(Item::Value { members: vec![("a".to_string(), VMember::Int), ("v".to_string(), VMember::Nested(d2)), ("u".to_string(), VMember::Nested(d3))] });
+        let d4 = self.items.len();
+        // a word in a word
+        let w = pick_idx(&mut rng, &self.items, |x| matches!(x, Item::Word)).unwrap();
+        self.items.push(Item::WordIn { inner: w });
+        let win = self.items.len();
+        // constants of structure, word and nested array type; type and value both mention constants
+        let lit = self.value_literal(d4, &mut rng, "1", "2");
+        self.items.push(Item::SConst { of: d4, word: false, text: lit });
+        let sconst = self.items.len();
+        self.items.push(Item::SConst { of: w, word: true, text: format!("W{w} {{ x: {}, y: {} }}", rng.range(1, 50), rng.range(1, 50)) });
+        let wconst = self.items.len();
+        let lc = pick_idx(&mut rng, &self.items, |x| matches!(x, Item::Pure { .. })).unwrap();
+        let Item::Pure { value: lv, .. } = self.items[lc - 1].clone() else { unreachable!() };
+        let rows = (0..2).map(|_| (0..lv).map(|_| rng.range(1, 50) as i64).collect()).collect();
+        self.items.push(Item::Arr2 { len_const: lc, rows });
+        let arr2 = self.items.len();
+        let ic = pick_idx(&mut rng, &self.items, |x| matches!(x, Item::Int { .. })).unwrap();
+        let texts = (0..lv).map(|k| if k % 2 == 0 { format!("C{ic} + {}", rng.range(1, 9)) } else { rng.range(1, 50).to_string() }).collect();
+        self.items.push(Item::ArrExpr { len_const: lc, texts });
+        let arrx = self.items.len();
+        // opaque structure, a shape pointing to it, heads
+        self.items.push(Item::Opaque);
+        let op = self.items.len();
+        self.items.push(Item::Shape { members: vec!["k: i64".to_string(), format!("o: &S{op}"), format!("t: [2][C{chain_end}]u8"), format!("d: &S{deep}")] });
+        let shape = self.items.len();
+        self.items.push(Item::Head { text: format!("fn h{}(o: &S{op}, s: S{shape}, w: W{win}) -> i32;\n", self.items.len() + 1) });
+        self.items.push(Item::Head { text: format!("extern fn h{}(buf: []u8, n: usize, p: &i32) -> i32;\n", self.items.len() + 1) });
+        // functions whose signatures mention structures, words, pointers and views
+        self.items.push(Item::FuncSig {
+            params: format!("s: S{d4}, w: W{w}, ww: W{win}"),
+            ret: "i32".to_string(),
+            body: format!("\treturn: {} + w.x - w.y + ww.w.x + ww.y\n", self.value_read(d4, "s", &mut rng)),
+        });
+        let fsig = self.items.len();
+        self.items.push(Item::FuncSig {
+            params: format!("p: &S{d1}, xs: []i32, k: i32"),
+            ret: "i32".to_string(),
+            body: "\tp.a = p.a + k;\n\tvar t: i32 = xs[0] + p.a;\n\treturn: t + (|xs| as i32)\n".to_string(),
+        });
+        let fptr = self.items.len();
+        // one more function that uses all of it
+        let deep_lit = self.value_literal(deep, &mut rng, "a", "b");
+        let d4_lit = self.value_literal(d4, &mut rng, "b", "a");
+        let mut body = String::new();
+        body.push_str(&format!("\tvar deep = {deep_lit};\n"));
+        body.push_str(&format!("\tvar dia = {d4_lit};\n"));
+        body.push_str(&format!("\tvar one = S{d1} {{ a: a }};\n"));
+        body.push_str(&format!("\tvar ww = W{win} {{ w: W{w} {{ x: a, y: b }}, x: 3, y: 4 }};\n"));
+        body.push_str(&format!("\tvar t: i32 = {} + {};\n", self.value_read(deep, "deep", &mut rng), self.value_read(deep, "deep", &mut rng)));
+        body.push_str(&format!("\tt = t + f{fsig}(dia, ww.w, ww) + f{fptr}(&one, C{arrx}, 2) + one.a;\n"));
+        body.push_str(&format!("\tt = t + {} + C{wconst}.x + C{arr2}[1][{}] + C{arrx}[0];\n", self.value_read(d4, &format!("C{sconst}"), &mut rng), rng.below(lv)));
+        body.push_str(&format!("\tt = t + (|:S{shape}| as i32) + (|:W{win}| as i32) + (|:S{deep}| as i32) + (C{chain_end} as i32);\n"));
+        body.push_str("\treturn: t % 1000\n");
+        let n = self.items.len() + 1;
+        let ext = Rng::new(seed, 0xC11C_E000 + n as u64).chance(50);
+        self.items.push(Item::Func { body, ext });
     }
 
     pub fn generate(seed: u64, index: usize) -> Program {
@@ -184,9 +303,10 @@ impl Program {
                 }
             }
         }
+        p.extend_kinds(seed, index);
         // functions: f may call functions generated BEFORE it (no recursion)
         let nf = rng.range(2, 4);
-        let mut funcs: Vec<usize> = Vec::new();
+        let mut funcs: Vec<usize> = p.items.iter().enumerate().filter(|(_, x)| matches!(x, Item::Func { .. })).map(|(i, _)| i + 1).collect();
         for _ in 0..nf {
             let n = p.items.len() + 1;
             let mut body = String::new();
@@ -259,9 +379,11 @@ impl Program {
     pub fn name(&self, a: usize) -> String {
         match &self.items[a - 1] {
             Item::Pure { .. } | Item::Derived { .. } | Item::Int { .. } | Item::Arr { .. } => format!("C{a}"),
-            Item::Word => format!("W{a}"),
-            Item::Value { .. } | Item::Shape { .. } => format!("S{a}"),
-            Item::Func { .. } => format!("f{a}"),
+            Item::SConst { .. } | Item::Arr2 { .. } | Item::ArrExpr { .. } => format!("C{a}"),
+            Item::Word | Item::WordIn { .. } => format!("W{a}"),
+            Item::Value { .. } | Item::Shape { .. } | Item::Opaque => format!("S{a}"),
+            Item::Func { .. } | Item::FuncSig { .. } => format!("f{a}"),
+            Item::Head { .. } => format!("h{a}"),
             Item::Main { .. } => "main".to_string(),
         }
     }
@@ -269,14 +391,15 @@ impl Program {
     pub fn kind(&self, a: usize) -> &'static str {
         match &self.items[a - 1] {
             Item::Pure { .. } | Item::Derived { .. } | Item::Int { .. } | Item::Arr { .. } => "const",
-            Item::Word | Item::Value { .. } | Item::Shape { .. } => "struct",
-            Item::Func { .. } | Item::Main { .. } => "fn",
+            Item::SConst { .. } | Item::Arr2 { .. } | Item::ArrExpr { .. } => "const",
+            Item::Word | Item::Value { .. } | Item::Shape { .. } | Item::Opaque | Item::WordIn { .. } => "struct",
+            Item::Func { .. } | Item::Main { .. } | Item::Head { .. } | Item::FuncSig { .. } => "fn",
         }
     }
 
     /// is declaration a a constant, structure or word (its definition travels with an import)?
     pub fn is_container(&self, a: usize) -> bool {
-        !matches!(&self.items[a - 1], Item::Func { .. } | Item::Main { .. })
+        !matches!(&self.items[a - 1], Item::Func { .. } | Item::Main { .. } | Item::Head { .. } | Item::FuncSig { .. })
     }
 
     /// the declarations whose name occurs in the text of declaration a
@@ -318,6 +441,7 @@ impl Program {
                         VMember::ArrNamed(c, _) => format!("[C{c}]i32"),
                         VMember::Word(w) => format!("W{w}"),
                         VMember::Nested(t) => format!("S{t}"),
+                        VMember::NestedArr(t) => format!("[2]S{t}"),
                     };
                     s.push_str(&format!("\t{name}: {t},\n"));
                 }
@@ -333,6 +457,16 @@ impl Program {
                 s
             }
             Item::Func { body, ext } => format!("{}fn f{a}(a: i32, b: i32) -> i32\n{{\n{body}}}\n", if *ext { "extern " } else { "" }),
+            Item::Head { text } => text.clone(),
+            Item::Opaque => format!("struct S{a};\n"),
+            Item::WordIn { inner } => format!("word128 W{a}\n{{\n\tw: W{inner},\n\tx: i32,\n\ty: i32,\n}}\n"),
+            Item::SConst { of, word, text } => format!("const C{a}: {}{of} = {text};\n", if *word { "W" } else { "S" }),
+            Item::Arr2 { len_const, rows } => {
+                let rs: Vec<String> = rows.iter().map(|r| format!("[{}]", r.iter().map(|x| x.to_string()).collect::<Vec<_>>().join(", "))).collect();
+                format!("const C{a}: [2][C{len_const}]i32 = [{}];\n", rs.join(", "))
+            }
+            Item::ArrExpr { len_const, texts } => format!("const C{a}: [C{len_const}]i32 = [{}];\n", texts.join(", ")),
+            Item::FuncSig { params, body, ret } => format!("fn f{a}({params}) -> {ret}\n{{\n{body}}}\n"),
             Item::Main { body } => format!("fn main() -> u8\n{{\n{body}}}\n"),
         }
     }
